@@ -107,7 +107,11 @@ var blocked = &Opaque{ID: -1}
 
 func (ex *Exec) callFunc(st *State, fn *ssa.Function, args, bindings []Value, retSlot int, isDefer bool) error {
 	name := fn.String()
-	if rep, ok := ex.prog.Replace[name]; ok {
+	if rep, ok := ex.cfg.Replace[name]; ok {
+		ex.res.Stubs[name] = true
+		fn = rep
+		name = fn.String()
+	} else if rep, ok := ex.prog.Replace[name]; ok {
 		ex.res.Stubs[name] = true
 		fn = rep
 		name = fn.String()
@@ -151,11 +155,101 @@ func (ex *Exec) callFunc(st *State, fn *ssa.Function, args, bindings []Value, re
 		}
 		return unsupported("call of %s (not executed and no model)", name)
 	}
+	if ex.cfg.Pure[name] && st.sink == nil && !isDefer {
+		return ex.summarise(st, fn, args, bindings, retSlot)
+	}
 	fr, err := ex.pushFrame(st, fn, args, bindings, retSlot)
 	if err != nil {
 		return err
 	}
 	fr.isDefer = isDefer
+	return nil
+}
+
+// summarise runs every path of a pure callee from the current state and
+// continues the caller on ONE state whose result is the guarded merge of the
+// callee's results. The callee must not have side effects the caller depends
+// on other than its result (heap effects of the sub-paths are dropped, which
+// is reported if any object the caller can see was written).
+func (ex *Exec) summarise(st *State, fn *ssa.Function, args, bindings []Value, retSlot int) error {
+	var local []*State
+	sub := st.clone()
+	sub.sink = &local
+	npc := len(st.pc)
+	fr, err := ex.pushFrame(sub, fn, args, bindings, -1)
+	if err != nil {
+		return err
+	}
+	depth := len(sub.task().frames)
+	_ = depth
+	fr.onReturn = func(s *State, res Value) error {
+		s.sumDone = true
+		s.sumRes = res
+		return errPathEnd
+	}
+	local = append(local, sub)
+	var guards []*smt.Term
+	var vals []Value
+	c := ex.ctx
+	for len(local) > 0 {
+		s := local[len(local)-1]
+		local = local[:len(local)-1]
+		s.w = st.w
+		for !s.done && !s.sumDone {
+			s.steps++
+			ex.res.Steps++
+			if s.steps > ex.cfg.MaxSteps {
+				return unsupported("step limit inside summarised call of %s", fn)
+			}
+			err := ex.step(s)
+			if err == nil {
+				continue
+			}
+			if err == errDead {
+				break
+			}
+			if err == errPathEnd {
+				break
+			}
+			return err
+		}
+		if !s.sumDone {
+			continue // path ended in a reported violation or died
+		}
+		g := c.True
+		for _, t := range s.pc[npc:] {
+			g = c.And(g, t)
+		}
+		guards = append(guards, g)
+		vals = append(vals, s.sumRes)
+		// side effects on objects that existed before the call are not merged
+		for id, o := range s.heap {
+			if old, ok := st.heap[id]; ok {
+				if old != o {
+					return unsupported("summarised function %s writes to caller-visible memory", fn)
+				}
+				continue
+			}
+			if _, inBase := ex.base[id]; inBase {
+				return unsupported("summarised function %s writes to global memory", fn)
+			}
+			st.heap[id] = o // allocated by the callee; may be referenced by its result
+		}
+	}
+	if len(vals) == 0 {
+		return errDead
+	}
+	var res Value
+	if vals[0] == nil {
+		res = Tuple{}
+	} else {
+		m, ok := st.mergeMany(guards, vals)
+		if !ok {
+			return unsupported("cannot merge results of summarised function %s", fn)
+		}
+		res = m
+	}
+	ex.finishNative(st, retSlot, res, false)
 	return nil
 }
 
